@@ -32,6 +32,8 @@ func Run(r *core.Report, env *build.Env) {
 		{Pkg: pk, Func: "VerifC19Float11", Bound: "all Kommazahl literals d,d through the whole frontend"},
 		{Pkg: pk, Func: "VerifC19Float12", Bound: "all Kommazahl literals d,dd"},
 		{Pkg: pk, Func: "VerifC19Float21", Bound: "all Kommazahl literals dd,d"},
+		{Pkg: pk, Func: "VerifC19FloatHugeInside", Bound: "Kommazahl literals d1 d2 followed by 305 zeros (inside the range of a double): accepted, finite"},
+		{Pkg: pk, Func: "VerifC19FloatHugeBeyond", Bound: "Kommazahl literals d1 d2 followed by 308 zeros (beyond the largest double): rejected with a diagnostic"},
 		{Pkg: pk, Func: "VerifC19IntOver", Bound: "all Zahl literals 1844674407370955dddd (around 2^64)"},
 	}
 	if r.Tier == "thorough" {
